@@ -366,7 +366,7 @@ func suiteC03Routes(cfg Config, res *Result) {
 // ---- histories ----
 
 func suiteC03Hist(cfg Config, res *Result) {
-	res.Rule = "random histories (<= 12 calls) over BanTag / BanFilter (registered, unknown and duplicate names) and FromString / FromFile / FromCache / RenderTemplateString on one or two sets; compared with the Lean ban-state model (success flag of every call) and a direct oracle (a ban accepted before the first template makes a later use fail; a ban after it is refused and a later use compiles); non-trivial = history with >= 1 ban after a create or a duplicate; distinct by history"
+	res.Rule = "random histories (<= 12 calls) over BanTag / BanFilter (registered, unknown and duplicate names), calls that have nothing to do with bans (CleanCache, Debug, AddLoader, Options) and FromString / FromFile / FromCache / RenderTemplateString on one or two sets; compared with the Lean ban-state model (success flag of every call) and a direct oracle (a ban accepted before the first template makes a later use fail; a ban after it is refused and a later use compiles); non-trivial = history with >= 1 ban after a create or a duplicate; distinct by history"
 	n := 3000
 	if cfg.Thorough() {
 		n = 60000
@@ -383,11 +383,14 @@ func suiteC03Hist(cfg Config, res *Result) {
 		k := 1 + rng.Intn(12)
 		var ops []op
 		for j := 0; j < k; j++ {
-			switch rng.Intn(4) {
+			switch rng.Intn(5) {
 			case 0:
 				ops = append(ops, op{"T", rng.Pick(tagNames)})
 			case 1:
 				ops = append(ops, op{"F", rng.Pick(filterNames)})
+			case 4:
+				// calls that have nothing to do with bans: they neither lift the freeze nor a ban
+				ops = append(ops, op{"X", rng.Pick([]string{"cleancache", "cleanname", "debug", "addloader", "options"})})
 			default:
 				ops = append(ops, op{"C", rng.Pick([]string{"string", "file", "cache", "render", "badstring", "nofile"})})
 			}
@@ -437,6 +440,19 @@ func suiteC03Hist(cfg Config, res *Result) {
 					if ok {
 						acceptedF[o.name] = true
 					}
+				case "X":
+					switch o.name {
+					case "cleancache":
+						set.CleanCache()
+					case "cleanname":
+						set.CleanCache("f.tpl")
+					case "debug":
+						set.Debug = !set.Debug
+					case "addloader":
+						set.AddLoader(&memLoader{files: map[string]string{}, id: "2"})
+					case "options":
+						set.Options = &pongo2.Options{TrimBlocks: true}
+					}
 				case "C":
 					created = true
 					ok = true
@@ -456,6 +472,9 @@ func suiteC03Hist(cfg Config, res *Result) {
 					}
 				}
 			}()
+			if o.kind == "X" {
+				continue
+			}
 			if ok {
 				flags = append(flags, "1")
 			} else {
@@ -486,7 +505,9 @@ func suiteC03Hist(cfg Config, res *Result) {
 		var rq strings.Builder
 		rq.WriteString("bans")
 		for _, o := range ops {
-			rq.WriteString(" " + o.kind + " " + hxb(o.name))
+			if o.kind != "X" {
+				rq.WriteString(" " + o.kind + " " + hxb(o.name))
+			}
 		}
 		reqs = append(reqs, rq.String())
 	}
